@@ -261,6 +261,10 @@ def patch_equivalences(chk, root):
          ['T greedy x', 'T dynamic x n'], 'struct T { u32 n; u16 x<@n>; };'),
         ('isVariableSize="false" is a fixed array (D90)', head + '<member name="x" type="u16"><dimension size="3" isVariableSize="false"/></member></struct></x>',
          [], 'struct T { u32 n; u16 x[3]; };'),
+        ('optional="1" and isVariableSize="1" are read by value, alike (D198)',
+         head + '<member name="a" type="u8" optional="1"/><member name="b" type="u16"><dimension isVariableSize="1"/></member><member name="c" type="u8" optional=" True "/>'
+         '<member name="d" type="u8" optional="0"/><member name="e" type="u8" optional="false"/></struct></x>',
+         [], 'struct T { u32 n; u8* a; u32 b_len; u16 b<@b_len>; u8* c; u8 d; u8 e; };'),
         ('shiftLeft / bitMaskOr in an array size (D98)', head + '<member name="x" type="u8"><dimension size="shiftLeft(1,2)"/></member><member name="y" type="u8"><dimension size="bitMaskOr(1,2)"/></member></struct></x>',
          [], 'struct T { u32 n; u8 x[4]; u8 y[3]; };'),
         ('patch file saved with a byte order mark (D93)', head + '<member name="x" type="u16"/></struct></x>', ['\ufeffT static x 3'], 'struct T { u32 n; u16 x[3]; };'),
